@@ -1866,7 +1866,11 @@ where
             .map(|ttl| now + exp_decrease(ttl, num_beyond_k));
         // The smaller TTL prevails. Only if neither TTL is set is the record
         // stored "forever".
-        record.expires = record.expires.or(expiration).min(expiration);
+        // (`Option::min` would treat `None`, i.e. "no expiry", as the smallest value.)
+        record.expires = match (record.expires, expiration) {
+            (Some(given), Some(local)) => Some(given.min(local)),
+            (given, local) => given.or(local),
+        };
 
         if let Some(job) = self.put_record_job.as_mut() {
             // Ignore the record in the next run of the replication
